@@ -396,7 +396,17 @@ def segments(ctx, prog, rep, tag):
             dst = Prov(r, transparent=TRANSPARENT | {"slice::get_mut"}).of_operand(pre[0].args[0])
             d["into-destination-front"] = True
         # the running length does not start at zero: its first definition that dominates the loop is not the constant 0
-        tl = [l for l in range(len(r.locals)) if r.local_name(l) == "total_len"]
+        # the running length, found by what it does (not by its name): a local that is increased inside the loop by a
+        # value derived from the segment's mailbox length
+        tl = []
+        for l in range(len(r.locals)):
+            for d_ in r.defs().get(l, []):
+                if d_[0] in loop_blocks and d_[2] == "assign" and not d_[3]["place"]["p"]:
+                    rr_ = prr._of_rvalue(d_[3]["rv"])
+                    if has_root(rr_, "binop", "Add") and (has_root(rr_, "field", "MailboxHeader", "length") or any(x[0] == "call" and x[1].endswith("checked_sub") for x in rr_)) and "usize" in r.local_ty(l) and l not in tl:
+                        # the accumulator itself, not the temporaries of the checked addition
+                        if any(dd[0] not in loop_blocks for dd in r.defs().get(l, [])):
+                            tl.append(l)
         d["running-length-local"] = len(tl) == 1
         if len(tl) == 1:
             inits = [x for x in r.defs().get(tl[0], []) if x[0] not in loop_blocks and r.dominates(x[0], seg[0].bb)]
